@@ -14,7 +14,7 @@ import (
 // about it do not compile) and exits with status 3.
 var strsExpected = []string{
 	"isASCIILower", "isASCIIUpper", "isASCIIDigit",
-	"GoCamelCase", "JSONCamelCase", "JSONSnakeCase",
+	"GoCamelCase", "JSONCamelCase", "JSONSnakeCase", "TrimEnumPrefix",
 }
 
 // extractStrs generates Gen/StrsGo.v from internal/strs/strings.go.
